@@ -182,7 +182,7 @@ func cmdRun(args []string) int {
 	work := filepath.Join(vd, "work", e.ID+"-"+*tier)
 	os.RemoveAll(work)
 	os.MkdirAll(work, 0o755)
-	os.MkdirAll(filepath.Join(vd, "evidence"), 0o755)
+	os.MkdirAll(evidenceDir(), 0o755)
 	if old, _ := filepath.Glob(filepath.Join(vd, "replays", e.ID+"-*.json")); old != nil {
 		for _, f := range old {
 			os.Remove(f)
@@ -437,7 +437,17 @@ func writeEvidence(e *eng.Engine, res *eng.Result, tier string, seed uint64, wal
 		"violations":  nviol,
 	}
 	b, _ := json.MarshalIndent(ev, "", " ")
-	os.WriteFile(filepath.Join(verifDir(), "evidence", e.ID+".json"), b, 0o644)
+	os.WriteFile(filepath.Join(evidenceDir(), e.ID+".json"), b, 0o644)
+}
+
+// evidenceDir is /verif/evidence. Runs against something other than /repo (MUX_REPO: a snapshot, or a scratch worktree
+// holding a seeded change) write elsewhere (run.sh sets VERIF_EVIDENCE_DIR), so the committed evidence always describes
+// a run against /repo itself.
+func evidenceDir() string {
+	if d := os.Getenv("VERIF_EVIDENCE_DIR"); d != "" {
+		return d
+	}
+	return filepath.Join(verifDir(), "evidence")
 }
 
 // ---------------- replay ----------------
